@@ -49,7 +49,7 @@ def gen_perturbed(seed, n, max_len, flags, bases):
     return [unhex(l) for l in p.stdout.split("\n") if l]
 
 
-IMPORT_NAMES = ["a", "b", "zeta", "alpha", "Beta", "m.n", "x.y.z", "é", "a1", "_u"]
+IMPORT_NAMES = ["a", "b", "zeta", "alpha", "Beta", "m.n", "x.y.z", "é", "a1", "_u", "a.x", "b.x", "x", "c.x", "z.f", "f", "q.a"]
 
 
 def gen_imports(rng, n):
@@ -61,7 +61,7 @@ def gen_imports(rng, n):
             nm = rng.pick(IMPORT_NAMES)
             r = rng.below(10)
             if r < 2:
-                nm = nm + " as " + rng.pick(["q", "r", "a", "b"])
+                nm = nm + " as " + rng.pick(["q", "r", "a", "b", "x", "f"])
             elif r == 2:
                 nm = nm + " /* c */ as " + rng.pick(["q", "a"])
             elif r == 3:
@@ -107,13 +107,19 @@ def nested_family(kind, depth):
         return "#let x = " + "(" * depth + "1" + ")" * depth + "\n"
     if kind == "callarg":
         return "#" + "f(a, g(" * depth + "1" + "))" * depth + "\n"
+    if kind == "dotcall":
+        return "#" + "alpha.beta.gamma(" * depth + "1" + ")" * depth + "\n"
+    if kind == "dotcall2":
+        return "#{\n  " + "aaaaaaaaaaaaaaaaaaaaaaaa.bbbbbbbbbbbbbbbbbbbbbbbb.cc(x, " * depth + "1" + ")" * depth + "\n}\n"
+    if kind == "letclosure":
+        return "#let f = " + "(x) => g(" * depth + "1" + ")" * depth + "\n"
     if kind == "strong":
         return ("*a _b " * depth) + ("_ c* " * depth) + "\n"
     return "x\n"
 
 
 FAMILIES = ["call", "array", "dict", "content", "block", "chain", "binary", "closure", "math", "list", "cond", "paren",
-            "callarg", "strong"]
+            "callarg", "strong", "dotcall", "dotcall2", "letclosure"]
 
 
 def damaged(rng, src):
